@@ -563,6 +563,48 @@ struct Fixture {
     }
     long checkLookup(Outcome& out){ return checkLookupOf(out, *tree, ""); }
 
+    // C18: exact number of elementary interactions implied by the tree (non-periodic), in the counter's units
+    struct RefCounts { long P2M = 0, M2M = 0, M2L = 0, L2L = 0, L2P = 0, P2P = 0, P2PInner = 0; };
+    RefCounts referenceCounts() const {
+        RefCounts rc;
+        std::map<std::vector<long>, long> leaves;
+        tree->applyToAllLeaves([&](const auto& header, const long int*, const auto&, const auto&){
+            leaves[std::vector<long>(header.boxCoord.begin(), header.boxCoord.end())] += header.nbParticles;
+        });
+        const long up = std::max(0L, spec.upperLevel);
+        const long h = spec.height;
+        std::vector<std::set<std::vector<long>>> cells(h);
+        for(const auto& kv : leaves) cells[h-1].insert(kv.first);
+        for(long l = h-1 ; l > 0 ; --l) for(const auto& v : cells[l]){ std::vector<long> p(Dim); for(int d = 0 ; d < Dim ; ++d) p[d] = v[d] >> 1; cells[l-1].insert(p); }
+        if(h > up){ rc.P2M = long(leaves.size()); rc.L2P = long(leaves.size()); }
+        for(long l = h-2 ; l >= up ; --l){ rc.M2M += long(cells[l+1].size()); rc.L2L += long(cells[l+1].size()); }
+        for(long l = std::max(up, 2L) ; l <= h-1 ; ++l){
+            for(const auto& v : cells[l]){
+                Coord c = vref::zeroCoord(); for(int d = 0 ; d < Dim ; ++d) c[d] = v[d];
+                for(const auto& r : vref::interactions(c, Dim, int(l), false)){
+                    if(cells[l].count(std::vector<long>(r.coord.begin(), r.coord.begin()+Dim))) rc.M2L += 1;
+                }
+            }
+        }
+        const long limit = 1L << (h-1);
+        for(const auto& kv : leaves){
+            Coord c = vref::zeroCoord(); for(int d = 0 ; d < Dim ; ++d) c[d] = kv.first[d];
+            rc.P2PInner += kv.second*kv.second - kv.second;
+            for(const auto& r : vref::neighbours(c, Dim, limit, false)){
+                if(!(vref::relCode(r.offset, Dim, 3) > vref::ipow(3, Dim)/2)) continue;
+                auto it = leaves.find(std::vector<long>(r.coord.begin(), r.coord.begin()+Dim));
+                if(it != leaves.end()) rc.P2P += kv.second * it->second;
+            }
+        }
+        return rc;
+    }
+    template <class Counters>
+    static void compareCounts(Outcome& out, const Counters& c, const RefCounts& rc, const long times = 1){
+        auto cmp = [&](const char* n, long got, long exp){ if(got != exp*times) out.add(std::string("counter:") + n, std::string(n) + " counted " + std::to_string(got) + " expected " + std::to_string(exp*times)); };
+        cmp("P2M", c.P2M, rc.P2M); cmp("M2M", c.M2M, rc.M2M); cmp("M2L", c.M2L, rc.M2L); cmp("L2L", c.L2L, rc.L2L);
+        cmp("L2P", c.L2P, rc.L2P); cmp("P2P", c.P2P, rc.P2P); cmp("P2PInner", c.P2PInner, rc.P2PInner);
+    }
+
     void collectKernelViolations(Outcome& out, const bool geometryKeysOnly = false, const bool skipGeometryKeys = false) const {
         for(const auto& kv : cx.violations){
             (void)geometryKeysOnly; (void)skipGeometryKeys;
